@@ -174,10 +174,10 @@ def make_strategy(choice, est_steps=400):
     # pairs of this run is slow - a task that performs such an operation is from then on (or, mode 'before', right
     # before it) as slow as it can legally be: it continues only when nobody else can make a step. Unlike a
     # priority change at a random step this lands at synchronisation points, and on every task of a role at once
-    # (all workers dawdle after they have delivered a result, ...). Off in three fifths of the runs.
-    kind = choice.draw(5, "slow.spots")
+    # (all workers dawdle after they have delivered a result, ...). Off in half of the runs.
+    kind = choice.draw(6, "slow.spots")
     if kind >= 3:
-        st.slow = {"mod": 8 if kind == 3 else 24, "res": choice.draw(24, "slow.residue"),
+        st.slow = {"mod": [6, 12, 24][kind - 3], "res": choice.draw(24, "slow.residue"),
                    "before": choice.draw(3, "slow.before") == 2, "by_name": choice.draw(3, "slow.by_name") == 2}
         st.params = dict(st.params, slow=st.slow)
     return st
@@ -210,6 +210,7 @@ class Kernel:
                  max_steps=200_000, anchors=None):
         self.choice = choice
         self.strategy = strategy
+        self._slow_events = {}
         self.on_end = on_end
         self.trace_root = trace_root
         self.granularity = granularity
@@ -343,7 +344,9 @@ class Kernel:
                 timed.append(t)
         for e in self.internal:
             if e.enabled():
-                opts.append(e)
+                # a slow spot may also be a delivery path (the feeder of a pipe queue): its items arrive as late as
+                # legally possible - when nobody else can make a step
+                (deferred if self._slow_event(e) else opts).append(e)
         # a deferred task ("as late as possible") runs only when nothing else can; whether such a task or the
         # timeout of a timed wait comes first is open: both are candidates then, chosen uniformly (not by the
         # strategy, which could keep choosing a polling task for ever)
@@ -357,6 +360,19 @@ class Kernel:
         if deferred and timed:
             self._fallback = True
         return deferred + timed
+
+    def _slow_event(self, e):
+        sl = self.strategy.slow
+        if sl is None:
+            return False
+        r = self._slow_events.get(e.name)
+        if r is None:
+            key = e.name if sl["by_name"] else e.name.split("[")[0]
+            r = zlib.crc32(f"event|{key}".encode()) % sl["mod"] == sl["res"] % sl["mod"]
+            self._slow_events[e.name] = r
+            if r:
+                self.fault("slow-spot-delivery")
+        return r
 
     def _pick(self, me, label="", anchored=False):
         while True:
